@@ -998,22 +998,85 @@ func VerifC11LongUnicode() {
 	vf.Reach("end")
 }
 
-// VerifC04RestOnly: a piece made of rests only is a sentence of the grammar like any other:
-// `text parse` and both `text conv` commands accept it, and the conversion lists one instance
-// per rest with its durations and no chord.
+// VerifC04RestOnly: sentences of the grammar through the real commands: a piece made of rests
+// only (accepted by `text parse` and both `text conv` commands, one instance per rest, no
+// chord), and note-name pieces whose first bytes look like something else to a careless
+// reader (BM…, GIF8…, a vertical tab as white space): accepted by `text parse` and
+// `text conv syllable` like any other sentence.
 func VerifC04RestOnly() {
-	text := []string{"R[1]", "R[1,1/2] R[2]{txt=hi}\n", " R[3/4] ; only a rest\n"}[vf.NondetIntRange("text", 0, 2)]
-	rests := []int{1, 2, 1}[map[string]int{"R[1]": 0, "R[1,1/2] R[2]{txt=hi}\n": 1, " R[3/4] ; only a rest\n": 2}[text]]
+	texts := []string{"R[1]", "R[1,1/2] R[2]{txt=hi}\n", " R[3/4] ; only a rest\n", "B_M7[1] E[1]", "BM7[1] E[1]\n", "GIF87a[1]", "C[1]\vD[1]", "%PDF[1]"}
+	ti := vf.NondetIntRange("text", 0, len(texts)-1)
+	text := texts[ti]
+	rests := []int{1, 2, 1, 0, 0, 0, 0, 0}[ti]
 	cmd := []*cobra.Command{textCmdParse, textCmdConvSyllable, textCmdConvDegree}[vf.NondetIntRange("command", 0, 2)]
+	if ti == 7 {
+		// not a sentence (no such token): refused by every command
+		cmd = textCmdParse
+	}
+	if rests == 0 && cmd == textCmdConvDegree {
+		cmd = textCmdConvSyllable // note names are not degree notation
+	}
 	in := vf.TempPath("restonly-in.txt")
 	verifReset(in)
 	defer verifReset(in)
 	os.WriteFile(in, []byte(text), 0o644)
 	vf.Assert("flags-parse", cmd.ParseFlags([]string{"--output", ""}) == nil)
 	out, err := verifCapture("restonly-out.txt", func() error { return cmd.RunE(cmd, []string{in}) })
+	if ti == 7 {
+		vf.Assert("a-non-sentence-is-refused", err != nil && out == "")
+		vf.Reach("end")
+		return
+	}
 	vf.Assert("a-sentence-of-rests-is-accepted", err == nil && out != "")
-	if err == nil && cmd != textCmdParse {
+	if err == nil && cmd != textCmdParse && rests > 0 {
 		vf.Assert("one-instance-per-rest-and-no-chord", len(verifYAMLValues(out, "values")) == 0 && strings.Count(out, "values:") == rests && !strings.Contains(out, "chord:"))
 	}
+	vf.Reach("end")
+}
+
+// VerifC12EmptyInputPaths: a command that succeeds on empty input (`write parse` prints an
+// empty list) gives the same bytes and the same outcome whether the empty input is an empty
+// FILE, `-`, or bare standard input — also when standard input is /dev/null, as under cron,
+// a service manager or a CI step.
+func VerifC12EmptyInputPaths() {
+	empty := vf.TempPath("empty-in.yml")
+	verifReset(empty)
+	defer verifReset(empty)
+	os.WriteFile(empty, nil, 0o644)
+	cmd := []*cobra.Command{writeCmdParse, writeCmdConv}[vf.NondetIntRange("command", 0, 1)]
+	flags := []string{"--output", ""}
+	if cmd == writeCmdConv {
+		flags = append(flags, "--command", "cmt")
+	}
+	vf.Assert("flags-parse", cmd.ParseFlags(flags) == nil)
+	run := func(args []string, stdin string) (string, error) {
+		old := os.Stdin
+		if stdin != "" {
+			f, err := os.Open(stdin)
+			if err != nil {
+				return "", err
+			}
+			os.Stdin = f
+			defer func() { os.Stdin = old; f.Close() }()
+		}
+		return verifCapture("empty-out.txt", func() error { return cmd.RunE(cmd, args) })
+	}
+	ref, rerr := run([]string{empty}, "")
+	vf.Assert("empty-document-outcome", rerr == nil && ref != "")
+	way := vf.NondetIntRange("way", 0, 3)
+	var got string
+	var gerr error
+	switch way {
+	case 0:
+		got, gerr = run(nil, empty) // bare stdin, a regular empty file
+	case 1:
+		got, gerr = run([]string{"-"}, empty)
+	case 2:
+		got, gerr = run(nil, "/dev/null") // bare stdin, the null device
+	case 3:
+		got, gerr = run([]string{"-"}, "/dev/null")
+	}
+	vf.Assert("same-outcome-on-every-input-path", (gerr == nil) == (rerr == nil))
+	vf.Assert("same-bytes-on-every-input-path", got == ref)
 	vf.Reach("end")
 }
